@@ -41,7 +41,9 @@ class ImpedanceMixin(Quantity, ImmittanceMixin):
         x = expr(x)
         if x.is_constant:
             from .admittance import admittance
-            return admittance(x.expr / self.expr)
+            ret = admittance(x.expr / self.expr)
+            ret.units = x.units / self.units
+            return ret
         return super(ImpedanceMixin, self).__rtruediv__(x)
 
     def cpt(self):
